@@ -602,3 +602,38 @@ Proof.
   split; [rewrite map_length; exact Hlen|]. split; [apply (Hnd (NoDup_nil _))|].
   intros i fn g Hn Hin. destruct (Hcalls i fn g Hn Hin) as [H|[[]|H]]; auto.
 Qed.
+
+(* ---------------------------------------------------------------- rejected or faithful *)
+Theorem prog_rejected_or_faithful P :
+  trc_prog P = None \/
+  exists vs, trc_prog P = Some vs /\
+    Forall2 (fun fn F => forall n args v s,
+               length args = length (cf_params fn) ->
+               cgo_body n P (rev (combine (cf_params fn) args)) (cf_body fn) = Some v ->
+               evals (call_expr F args) s v s) P vs.
+Proof.
+  destruct (trc_prog P) as [vs|] eqn:E; [right|left; reflexivity].
+  exists vs. split; [reflexivity|apply prog_correct, E].
+Qed.
+
+(* the refusals of the fragment: a parameter with the name of its function
+   (the recursion binder would capture it), for any body and any other
+   parameters; two parameters of one name; two functions of one name *)
+Lemma rejects_param_named_like_function T name ps1 ps2 body :
+  trc_func T {| cf_name := name; cf_params := ps1 ++ name :: ps2; cf_body := body |} = None.
+Proof.
+  unfold trc_func. cbn [cf_name cf_params].
+  assert (H : smem name (ps1 ++ name :: ps2) = true).
+  { apply smem_In, in_or_app. right. left. reflexivity. }
+  rewrite H. cbn [negb]. rewrite andb_false_r. reflexivity.
+Qed.
+
+Lemma rejects_two_functions_of_one_name T fn P R :
+  In (cf_name fn) (map fst T) -> trc_prog_from T (fn :: P) = R -> R = None.
+Proof.
+  intros Hin <-. cbn [trc_prog_from]. apply smem_In in Hin. rewrite Hin. reflexivity.
+Qed.
+
+Lemma rejects_call_of_unknown_function T self G f args :
+  String.eqb f self = false -> flookup f T = None -> trc_expr T self G (CCall f args) = None.
+Proof. intros Hs Hf. cbn [trc_expr]. rewrite Hs, Hf. destruct (smem f G); reflexivity. Qed.
